@@ -402,6 +402,8 @@ type bitEnv struct {
 	vals map[ssa.Value]bitvec
 	ok   bool
 	why  string
+	// pick, when set, selects the incoming value of a phi for the case under evaluation (nil: not decidable)
+	pick func(*ssa.Phi) ssa.Value
 }
 
 func (e *bitEnv) eval(v ssa.Value) bitvec {
@@ -465,6 +467,18 @@ func (e *bitEnv) eval(v ssa.Value) bitvec {
 			e.why = "unsupported operator " + x.Op.String()
 			out = unknownVec(w)
 		}
+	case *ssa.Phi:
+		var sel ssa.Value
+		if e.pick != nil {
+			sel = e.pick(x)
+		}
+		if sel != nil {
+			out = e.eval(sel)
+			break
+		}
+		e.ok = false
+		e.why = "unsupported value " + v.String()
+		out = unknownVec(w)
 	default:
 		e.ok = false
 		e.why = "unsupported value " + v.String()
